@@ -71,6 +71,24 @@ Theorem C03_refuted_time_saturation :
   Encode true STime (VTime (-9223372036854775808)) = Ok [0; 0; 0; 0; 0; 0; 0; 0].
 Proof. exact refuted_time_saturation. Qed.
 
+(* Types with a custom codec (serix.Serializable / Deserializable) and a registered syntactic validator are schemas too
+   ([SCustom ty fmt p], p the validator as an ARBITRARY predicate on the payload): C03_canonical / C03_injective above,
+   C01_roundtrip and C02_no_panic quantify over them, i.e. hold for every validator. In particular the validating
+   decoder never returns a value its validator rejects (seed C03-m7 skipped the validator on the custom-codec path). *)
+Theorem C03_custom_decode_validated : forall ty f (p : bytes -> bool) tot b v n,
+  decode true tot (SCustom ty f (Some p)) b = Ok (v, n) -> exists bs, v = VBytes bs /\ p bs = true.
+Proof. exact custom_decode_validated. Qed.
+
+Example C03_custom_validator_cases :
+  let s := SCustom (Some (TC8 9)) (CFix 2) (Some pred_lt2) in
+  let l := SCustom None CLen8 (Some pred_even_len) in
+  Decode true s [9; 2; 5] = Ok (VBytes [2; 5], 3%nat) /\ Decode true s [9; 5; 2] = Err EValidator /\
+  Decode false s [9; 5; 2] = Ok (VBytes [5; 2], 3%nat) /\ Encode true s (VBytes [5; 2]) = Err EValidator /\
+  Encode false s (VBytes [5; 2]) = Ok [9; 5; 2] /\
+  Decode true l [2; 7; 7; 1] = Ok (VBytes [7; 7], 3%nat) /\ Decode true l [1; 7] = Err EValidator /\
+  Decode true l [3; 7] = Err ENotEnough /\ Encode true l (VBytes [7]) = Err EValidator.
+Proof. exact custom_validator_cases. Qed.
+
 (* The answer to a call on one API does not depend on the calls made before it (the model of a session is the map of a
    pure function over the history). This is what the correspondence holds the code to when it replays call histories on
    one serix.API whose types share settings objects: a library that rewrites a registered *ArrayRules in place (seed
@@ -119,3 +137,5 @@ Print Assumptions C03_canonical_nonvacuous.
 Print Assumptions C03_noncanonical_rejected.
 Print Assumptions C03_history_independent.
 Print Assumptions C03_history_pointwise.
+Print Assumptions C03_custom_decode_validated.
+Print Assumptions C03_custom_validator_cases.
